@@ -64,6 +64,57 @@ def one_case(rng, res, check_c11=True):
         shutil.rmtree(root, ignore_errors=True)
 
 
+def tree_of(snap):
+    """Tree description (harness/tree.py form) of a snapshot {relative path: bytes}."""
+    top = {}
+    for path, data in snap.items():
+        cur = top
+        comps = path.split("/")
+        for c in comps[:-1]:
+            cur = cur.setdefault(c, ("d", {}))[1]
+        cur[comps[-1]] = ("f", data)
+    return top
+
+
+def model_run(h, st):
+    """The Lean `inTotoRun` on the two snapshots with the history's recording options."""
+    import in_toto.settings as ist
+    from harness import tree as T
+    opts = h.opts
+    before, after = tree_of(st["before"]), tree_of(st["after"])
+    patterns = list(opts["exclude"][0]) if opts["exclude"] else list(ist.ARTIFACT_EXCLUDE_PATTERNS)
+    cands = sorted(set(T.candidate_paths(before, ["."])) | set(T.candidate_paths(after, ["."])))
+    out = "".join(o[5:] + "\n" for o in st["cmd"] if o.startswith("echo:"))
+    err = "".join("err:" + o[5:] + "\n" for o in st["cmd"] if o.startswith("echo:"))
+    req = {"op": "in_toto_run", "before": T.model_node(before, before), "after": T.model_node(after, after), "name": st["name"],
+           "material_list": ["."], "product_list": ["."], "command": list(st["cmd"]),
+           "run": {"return-value": 0, "stdout": out, "stderr": err} if st["cmd"] else None,
+           "record_streams": bool(st["streams"]), "signer": st["key"].keyid, "metadata_directory": h.links,
+           "excl": T.exclusion_table(patterns, cands), "follow": True, "normalize": False, "lstrip": list(opts["lstrip"] or [])}
+    return core.driver().call(req)
+
+
+def compare_with_model(h, st, pl, res, desc):
+    m = model_run(h, st)
+    if "ok" not in m:
+        res.fail("disagree", {"op": "in_toto_run", "desc": desc, "step": st["name"]}, {"op": "in_toto_run", "impl": "link written", "model": m})
+        return
+    ml = m["ok"]["link"]
+    impl = {"materials": sorted([k, v["sha256"]] for k, v in pl.materials.items()),
+            "products": sorted([k, v["sha256"]] for k, v in pl.products.items()),
+            "command": list(pl.command), "byproducts": pl.byproducts or None, "name": pl.name}
+    model = {"materials": sorted([k, v["digest"]] for k, v in ml["materials"]),
+             "products": sorted([k, v["digest"]] for k, v in ml["products"]),
+             "command": ml["command"], "byproducts": ml["byproducts"], "name": ml["name"]}
+    written = (m["ok"]["written"] or {}).get("path")
+    agreed = impl == model and written == st["file"]
+    res.case({"in_toto_run": {"step": st["name"], "options": desc.get("options"), "n_materials": len(impl["materials"]),
+                              "n_products": len(impl["products"])}}, impl["materials"] != impl["products"], agreed, sample_cap=1)
+    if not agreed:
+        res.fail("disagree", {"op": "in_toto_run", "desc": desc, "step": st["name"]},
+                 {"op": "in_toto_run", "impl": impl, "model": model, "impl_file": st["file"], "model_file": written})
+
+
 def judge_links(h, res, desc):
     """C11: materials = state before, products = state after, command, status, streams,
     signature, file on disk identical to the returned metadata."""
@@ -76,6 +127,8 @@ def judge_links(h, res, desc):
             continue
         md = Metadata.load(st["file"])
         pl = md.get_payload()
+        if st["mode"] in ("run", "run_no_command"):
+            compare_with_model(h, st, pl, res, desc)
         why = None
         if pl.materials != chainrun.covered(st["before"], h.opts):
             why = "materials are not the state of the paths immediately before the command (names / exclusion per the options)"
